@@ -132,6 +132,7 @@ func RunOnce(t *testing.T, env *Env, p *Prop, seed, run uint64, vals []uint32, r
 		tp = tape.NewSearch(seed, run)
 	}
 	res = &Result{Prop: p.ID, Seed: seed, Run: run}
+	sim.WallExpired.Store(false)
 	curRun.Store(fmt.Sprintf("%s seed=%d run=%d #%d", p.ID, seed, run, runCounter.Add(1)))
 	var ctx *Ctx
 	func() {
@@ -784,10 +785,20 @@ func startWatchdog() {
 		last := ""
 		var lastProg uint64
 		since := time.Now()
+		runName, runSince := "", time.Now()
+		runLimit := time.Duration(envU("VERIF_RUN_WALL_S", 180)) * time.Second
 		for {
 			time.Sleep(time.Second)
 			cur, _ := curRun.Load().(string)
 			prog := sim.Progress.Load()
+			// a run that keeps making decisions but has used several minutes of
+			// wall clock is cut short (counted like a run out of steps)
+			if cur != runName {
+				runName, runSince = cur, time.Now()
+				sim.WallExpired.Store(false)
+			} else if cur != "" && time.Since(runSince) > runLimit {
+				sim.WallExpired.Store(true)
+			}
 			if cur != last || prog != lastProg {
 				last, lastProg = cur, prog
 				since = time.Now()
